@@ -61,25 +61,56 @@ def rule_frag(ctx):
     if not loops:
         return
     w = loops[0]
-    check_cond(ctx, R, fi, w, w.test, {"len(buf)": [0, 3, 4, 5, 9], "self.recordSize": [4]},
-               lambda e: e["len(buf)"] > e["self.recordSize"],
+    # the loop guard compares the length of the buffer B with the record size S (names are the code's own)
+    t = w.test
+    B = S = None
+    if isinstance(t, ast.Compare) and len(t.ops) == 1:
+        for side, other in ((t.left, t.comparators[0]), (t.comparators[0], t.left)):
+            if isinstance(side, ast.Call) and call_name(side) == "len" and side.args and isinstance(side.args[0], ast.Name):
+                B, S = side.args[0].id, norm(other)
+    if B is None:
+        ctx.fail(R, fi.qname, "fragmentation loop guard", "the fragmentation loop guard `%s` does not compare the "
+                 "remaining length with the record size" % norm(t), fi.loc(w))
+        return
+    check_cond(ctx, R, fi, w, w.test, {"len(%s)" % B: [0, 3, 4, 5, 9], S: [4]},
+               lambda e: e["len(%s)" % B] > e[S],
                "fragment while the remaining message is longer than the record size",
                "the fragmentation loop must run exactly while len(buf) > recordSize (a `>=` emits a "
                "forbidden empty record after a message that fills the last fragment; `<`/wrong bound "
                "sends oversized records)", closed=True)
-    body = [norm(s) for s in w.body]
-    ok = body[:2] == ["newB = buf[:self.recordSize]", "buf = buf[self.recordSize:]"] and \
-        "msgFragment = Message(contentType, newB)" in body
+    ctx.check(R, S == "self.recordSize", fi.qname, "fragments are cut at self.recordSize",
+              "the fragmentation bound is `%s`, not the record size in force" % S, fi.loc(w))
+    head = tail = None
+    for i, st in enumerate(w.body):
+        if isinstance(st, ast.Assign) and len(st.targets) == 1 and isinstance(st.targets[0], ast.Name) \
+                and isinstance(st.value, ast.Subscript) and isinstance(st.value.value, ast.Name) \
+                and st.value.value.id == B and isinstance(st.value.slice, ast.Slice):
+            sl = st.value.slice
+            if sl.lower is None and sl.upper is not None and norm(sl.upper) == S and sl.step is None and head is None \
+                    and st.targets[0].id != B:
+                head = (i, st.targets[0].id)
+            if sl.upper is None and sl.lower is not None and norm(sl.lower) == S and sl.step is None \
+                    and st.targets[0].id == B:
+                tail = i
+    msgs = [st for st in w.body if isinstance(st, ast.Assign) and isinstance(st.value, ast.Call)
+            and call_name(st.value) == "Message" and len(st.value.args) == 2]
+    ok = head is not None and tail is not None and head[0] < tail and len(msgs) == 1 \
+        and norm(msgs[0].value.args[0]) == "contentType" and norm(msgs[0].value.args[1]) == head[1]
     ctx.check(R, ok, fi.qname, "fragment = head of recordSize bytes, remainder kept",
               "each fragment must be the first recordSize bytes and the remainder must be everything after them",
               fi.loc(w))
     sends = [n for n in own_nodes(fi.node) if isinstance(n, ast.For) and call_name(n.iter) == "_sendMsgThroughSocket"]
-    args = [norm(n.iter.args[0]) for n in sorted(sends, key=lambda x: x.lineno)]
-    ctx.check(R, args == ["msgFirstByte", "msgFragment", "msgFragment"], fi.qname,
-              "every fragment (and only fragments) is sent", "the sends of _sendMsg are %s" % args, fi.loc())
-    last = [n for n in fi.node.body if isinstance(n, ast.Assign) and norm(n) == "msgFragment = Message(contentType, buf)"]
-    ctx.check(R, len(last) == 1, fi.qname, "the last fragment is the remaining buffer",
-              "the final fragment must carry what is left in buf", fi.loc())
+    in_loop = [n for n in sends if any(x is n for x in ast.walk(w))]
+    after = [n for n in sends if n.lineno > w.end_lineno]
+    okl = len(in_loop) == 1 and bool(msgs) and norm(in_loop[0].iter.args[0]) == norm(msgs[0].targets[0])
+    ctx.check(R, okl, fi.qname, "every fragment is sent", "a fragment cut off in the loop is not sent (or something "
+              "else is)", fi.loc(w))
+    last = [n for n in fi.node.body if isinstance(n, ast.Assign) and isinstance(n.value, ast.Call)
+            and call_name(n.value) == "Message" and [norm(a) for a in n.value.args] == ["contentType", B]
+            and n.lineno > w.end_lineno]
+    okf = len(last) == 1 and len(after) == 1 and norm(after[0].iter.args[0]) == norm(last[0].targets[0])
+    ctx.check(R, okf, fi.qname, "the last fragment is the remaining buffer, sent once",
+              "the final fragment must carry what is left in the buffer and be sent", fi.loc())
     rsz = ctx.index.func(TLSREC + "recordSize")
     ret = [n for n in own_nodes(rsz.node) if isinstance(n, ast.Return)]
     if ret:
